@@ -212,10 +212,10 @@ def map_nested_value(func: Callable, value: Any) -> Any:
                 if field.init
             }
         )
-        # Set non-init fields.
+        # Set non-init fields. object.__setattr__ also works for frozen dataclasses.
         for field in dataclasses.fields(value):
             if not field.init:
-                setattr(
+                object.__setattr__(
                     mapped_value, field.name, map_nested_value(func, getattr(value, field.name))
                 )
 
